@@ -98,3 +98,18 @@ def key_call(pid, c):
         elif n == 1000:
             return "call.ctx.unlimited-bound-off-by-one"
     return None
+
+
+def key_pos(pid, c):
+    """D16b: the failing form is a list rebuilt by macro expansion (no cursor of its own) inside a function that is
+    reached through a callback-taking builtin from another top-level form."""
+    k = _panic_key(pid, c)
+    if k:
+        return k
+    try:
+        text = bytes.fromhex([f for f in c.payload.split() if f.startswith("x")][0][1:]).decode("utf-8", "replace")
+    except Exception:
+        return None
+    if "(-> [1 2] (nth 7))" in text and "(def g" in text:
+        return "pos.macro-rebuilt.via-callback"
+    return None
